@@ -20,7 +20,7 @@ package main
 //	scan:not-atomic-snapshot          RangeScan / List / index List returned a mixture of two states
 //	scan:index-range-scan-not-atomic  the same for the secondary-index RangeScan (its values are read by one Get per
 //	                                  record, see newSecondaryIndexRangeScanIterator)
-//	scan:failed                       the scan ended with an error / did not end
+//	scan:failed                       the scan ended with an error
 
 import (
 	"context"
@@ -28,6 +28,7 @@ import (
 	"sort"
 	"strconv"
 	"strings"
+	"sync"
 	"time"
 
 	"github.com/oxia-db/oxia/proto"
@@ -95,7 +96,10 @@ type c02Scan struct {
 	got      []c02Rec
 	seen     int
 	blocked  bool
+	werr     error
 	done     chan error
+	counts   map[string]int // hx.Out is not goroutine-safe: the callback (scan goroutine) counts here, the main goroutine flushes
+	pending  sync.WaitGroup // WriteBlock calls issued from the callback: all awaited before the controller is closed
 }
 
 func c02Key(i int) string { return fmt.Sprintf("key-%05d", i) }
@@ -157,22 +161,29 @@ func (sc *c02Scan) maybeWrite() {
 	}
 	w := sc.nextWrite()
 	ack := make(chan error, 1)
+	sc.pending.Add(1)
+	req := w.toProto()
 	go func() {
-		ctx, cancel := context.WithTimeout(context.Background(), c13Step)
-		defer cancel()
-		_, err := sc.l.lc.WriteBlock(ctx, w.toProto())
+		defer sc.pending.Done()
+		_, err := sc.l.lc.WriteBlock(context.Background(), req)
 		ack <- err
 	}()
 	select {
 	case err := <-ack:
-		hx.Must(err)
+		if err != nil {
+			// reported by the main goroutine as scan:failed; no further writes
+			sc.werr = err
+			sc.blocked = true
+			sc.states = sc.states[:len(sc.states)-1]
+			return
+		}
 		sc.writes = append(sc.writes, fmt.Sprintf("after record #%d: %d puts %d deletes", i, len(w.puts), len(w.dels)))
-		sc.o.Count("scan:write-during-scan")
+		sc.counts["scan:write-during-scan"]++
 	case <-time.After(c13Step):
 		// the implementation does not let a write complete while the scan is open: not this leg's subject
 		sc.blocked = true
 		sc.states = sc.states[:len(sc.states)-1]
-		sc.o.Count("scan:write-blocked-during-scan")
+		sc.counts["scan:write-blocked-during-scan"]++
 	}
 }
 
@@ -211,12 +222,14 @@ func c02ScanCase(o *hx.Out, kind string, n int, triggers []int, tag string) {
 		cancel()
 		hx.Must(err)
 	}
-	sc := &c02Scan{o: o, l: l, kind: kind, n: n, triggers: map[int]bool{}, states: []c02State{st}, done: make(chan error, 1)}
+	sc := &c02Scan{o: o, l: l, kind: kind, n: n, triggers: map[int]bool{}, states: []c02State{st}, done: make(chan error, 1), counts: map[string]int{}}
 	var ts []string
 	for _, t := range triggers {
 		sc.triggers[t] = true
 		ts = append(ts, strconv.Itoa(t))
 	}
+	o.Count("scan:" + kind)
+	o.Count(fmt.Sprintf("scan:N=%d", n))
 	ctx, cancel := context.WithCancel(context.Background())
 	defer cancel()
 	idx := "i"
@@ -235,18 +248,20 @@ func c02ScanCase(o *hx.Out, kind string, n int, triggers []int, tag string) {
 	}
 	input := fmt.Sprintf("%s %d %s", kind, n, strings.Join(ts, ","))
 	ctxt := fmt.Sprintf("%s: %s over %d keys, writes awaited inside the stream callback: [%s]", tag, kind, n, "%s")
-	o.Count("scan:" + kind)
-	o.Count(fmt.Sprintf("scan:N=%d", n))
 	var res string
-	select {
-	case err := <-sc.done:
-		if err != nil {
-			res = "err:" + errKind(err)
-			o.Violation("scan:failed", fmt.Sprintf(ctxt, strings.Join(sc.writes, "; "))+": the scan ended with "+err.Error())
-		}
-	case <-time.After(6 * c13Step):
-		res = "err:timeout"
-		o.Violation("scan:failed", fmt.Sprintf(ctxt, strings.Join(sc.writes, "; "))+": the scan did not end")
+	// No bound here: the controller is never closed with a scan or a write of this case in flight (the leg's own
+	// timeout is the bound). From here on the scan goroutine has ended: its fields are read by this goroutine only.
+	err := <-sc.done
+	sc.pending.Wait()
+	for k, v := range sc.counts {
+		o.CountN(k, v)
+	}
+	if err == nil && sc.werr != nil {
+		err = fmt.Errorf("a WriteBlock issued during the scan failed: %w", sc.werr)
+	}
+	if err != nil {
+		res = "err:" + errKind(err)
+		o.Violation("scan:failed", fmt.Sprintf(ctxt, strings.Join(sc.writes, "; "))+": the scan ended with "+err.Error())
 	}
 	if res == "" {
 		got := c02State{}
